@@ -547,6 +547,8 @@ func quoteIdentifier(sb *strings.Builder, name string) {
 	for _, b := range []byte(name) {
 		if b == '"' {
 			sb.WriteString(quoteEscape)
+		} else if b == '\\' {
+			sb.WriteString(`\\`)
 		} else {
 			sb.WriteByte(b)
 		}
@@ -1046,6 +1048,8 @@ func quoteSQLString(sb *strings.Builder, s string) {
 	for _, b := range []byte(s) {
 		if b == '\'' {
 			sb.WriteString("''")
+		} else if b == '\\' {
+			sb.WriteString(`\\`)
 		} else {
 			sb.WriteByte(b)
 		}
